@@ -27,7 +27,7 @@ RULE = ("case = series 2..60 points with x of non-zero origin in >= 80% x trend 
         " Round-5 classes: trend callables returning the int 0 first and fractions later, signed narrow-integer data spanning its type for normalise, a 'threads' kind."
         " Round-6 classes: bare NumPy ufunc objects as trend callables, target ranges given as narrow NumPy integer scalars."
         " Round-7 classes: numpy.poly1d objects of degree 0..3 (a constant polynomial is falsy) as trend callables.")
-REQUIRED_MONITORS = ["threads:domain", "c14:trend", "c14:trend_additive", "c14:shift_scale", "c14:normalize"]
+REQUIRED_MONITORS = ["threads:domain", "threads:first_use:domain", "threads:first_use_yields_injected", "c14:trend", "c14:trend_additive", "c14:shift_scale", "c14:normalize"]
 ASSUMPTIONS = ["scale != 0, min_val < max_val, non-constant array for normalise"]
 NSHARDS = 16
 
@@ -250,13 +250,13 @@ def run_case(ctx, kind_, idx):
 
 
 def run(ctx, spec):
-    if spec["kind"] == "threads":      # concurrent independent requests vs their sequential answers
+    if spec["kind"] in ("threads", "threads_cold"):      # concurrent independent requests vs their sequential answers
         return _jobs.run(ctx, spec, ["domain"])
     for idx in range(spec["start"], spec["start"] + spec["count"]):
         run_case(ctx, spec["kind"], idx)
 
 
 def replay(ctx, case):
-    if case["kind"] == "threads":
-        return _jobs.run_case(ctx, ["domain"], case["idx"])
+    if case["kind"] in ("threads", "threads_cold"):
+        return _jobs.run_case(ctx, ["domain"], case["idx"], cold=case["kind"] == "threads_cold")
     run_case(ctx, case["kind"], case["idx"])
